@@ -673,4 +673,699 @@ def R7(ctx: Ctx) -> RuleResult:
     return r
 
 
-RULES = {'R7': R7}
+# ------------------------------------------------------------------------ R8
+class _NoValue(Exception):
+    """a term of a fold that the little interpreter below cannot read"""
+
+
+def _range_parts(t: Term) -> Optional[str]:
+    """'min' / 'max' for <range>.min_value.value / .max_value.value, 'emin' / 'emax' for the exclusion flags"""
+    if isinstance(t, Attr) and t.name == 'value' and isinstance(t.base, Attr) and t.base.name in ('min_value', 'max_value'):
+        return 'min' if t.base.name == 'min_value' else 'max'
+    if isinstance(t, Attr) and t.name in ('exclude_min', 'exclude_max'):
+        return 'emin' if t.name == 'exclude_min' else 'emax'
+    return None
+
+
+def _bound_kind_test(t: Term) -> bool:
+    """<range>.min_value / .max_value is a number literal (is_number_literal(b), b.is_value, b.is_literal, ...)"""
+    def bound(x: Term) -> bool:
+        return isinstance(x, Attr) and x.name in ('min_value', 'max_value')
+    if isinstance(t, Attr) and t.name in ('is_value', 'is_literal', 'can_be_number') and bound(t.base):
+        return True
+    if isinstance(t, Call) and isinstance(t.func, FuncRef) and t.func.key.split(':')[-1] == 'is_number_literal' and len(t.args) == 1 and bound(t.args[0]):
+        return True
+    if isinstance(t, Call) and isinstance(t.func, Ext) and t.func.name == 'isinstance' and len(t.args) == 2 and bound(t.args[0]) and 'HplLiteral' in repr(t.args[1]):
+        return True
+    return False
+
+
+def _fold_value(t: Term, env: Dict[Any, Any], loops: List[Any]) -> Any:
+    """value of an arithmetic / boolean term of a fold in one point of the finite model"""
+    from .terms import Loop, Opaque, TupleT
+    part = _range_parts(t)
+    if part is not None:
+        return env[part]
+    if t in env:
+        return env[t]
+    if isinstance(t, Const):
+        if isinstance(t.value, (int, float, bool)) or t.value is None:
+            return t.value
+        raise _NoValue(repr(t))
+    if _bound_kind_test(t):
+        return True    # "this bound is a number literal": the case under study
+    if isinstance(t, Ite):
+        return _fold_value(t.a if _fold_value(t.test, env, loops) else t.b, env, loops)
+    if isinstance(t, Op):
+        if t.op == 'not' and len(t.args) == 1:
+            return not _fold_value(t.args[0], env, loops)
+        if t.op == 'iterating' and len(t.args) == 1:
+            it = _fold_value(t.args[0], env, loops)    # a return from inside `for i in range(..)`: the range is not empty
+            if isinstance(it, range):
+                return len(it) > 0
+            raise _NoValue(repr(t))
+        if t.op == 'and':
+            return all(_fold_value(a, env, loops) for a in t.args)
+        if t.op == 'or':
+            return any(_fold_value(a, env, loops) for a in t.args)
+        if t.op == 'neg' and len(t.args) == 1:
+            return -_fold_value(t.args[0], env, loops)
+        if len(t.args) == 2:
+            a, b = _fold_value(t.args[0], env, loops), _fold_value(t.args[1], env, loops)
+            try:
+                if t.op == '+':
+                    return a + b
+                if t.op == '-':
+                    return a - b
+                if t.op == '*':
+                    return a * b
+                if t.op == '//':
+                    return a // b
+                if t.op == '/':
+                    return Fraction(a) / Fraction(b)
+                if t.op == '%':
+                    return a % b
+                if t.op == '**' and isinstance(b, int) and 0 <= b <= 8:
+                    return a ** b
+                if t.op in ('==', 'is'):
+                    return a == b
+                if t.op in ('!=', 'is not'):
+                    return a != b
+                if t.op == '<':
+                    return a < b
+                if t.op == '<=':
+                    return a <= b
+                if t.op == '>':
+                    return a > b
+                if t.op == '>=':
+                    return a >= b
+            except (ZeroDivisionError, TypeError):
+                raise _NoValue(f'{t.op} undefined')
+        if t.op == '-' and len(t.args) == 1:
+            return -_fold_value(t.args[0], env, loops)
+    if isinstance(t, Call) and isinstance(t.func, Ext) and not t.kwargs:
+        n = t.func.name.split('.')[-1]
+        if n == 'reduce' and len(t.args) == 3 and isinstance(t.args[0], Ext):
+            opn = t.args[0].name.split('.')[-1]
+            xs, acc = _fold_value(t.args[1], env, loops), _fold_value(t.args[2], env, loops)
+            if opn in ('mul', '__mul__', 'add', '__add__') and isinstance(xs, range) and len(xs) <= 64:
+                for x in xs:
+                    acc = acc * x if opn in ('mul', '__mul__') else acc + x
+                return acc
+            raise _NoValue(repr(t)[:80])
+        args = [_fold_value(a, env, loops) for a in t.args]
+        if n == 'int' and len(args) == 1:
+            return int(args[0])
+        if n == 'float' and len(args) == 1:
+            return args[0]
+        if n == 'bool' and len(args) == 1:
+            return bool(args[0])
+        if n == 'abs' and len(args) == 1:
+            return abs(args[0])
+        if n in ('max', 'min') and len(args) >= 2:
+            return max(args) if n == 'max' else min(args)
+        if n == 'range' and 1 <= len(args) <= 3 and all(isinstance(a, int) for a in args):
+            return range(*args)
+        if n in ('len', 'sum', 'prod', 'list', 'tuple') and len(args) == 1 and isinstance(args[0], range) and len(args[0]) <= 64:
+            xs = list(args[0])
+            if n == 'len':
+                return len(xs)
+            if n == 'sum':
+                return sum(xs)
+            if n == 'prod':
+                out = 1
+                for x in xs:
+                    out *= x
+                return out
+            return range(args[0].start, args[0].stop, args[0].step)
+    if isinstance(t, Opaque) and t.tag.startswith('loop:'):
+        # the accumulator of a summarised loop after the loop: replay the single body path over the iterable
+        var = t.tag[5:]
+        for lp in loops:
+            if not isinstance(lp, Loop) or var not in dict(lp.inits) or lp.raises or lp.returns:
+                continue
+            it = _fold_value(lp.iter, env, loops)
+            if not isinstance(it, range) or len(it) > 64:
+                raise _NoValue(f'loop over {lp.iter!r}')
+            accs = {k: _fold_value(v, env, loops) for k, v in lp.inits}
+            tgt = lp.target
+            for x in it:
+                env2 = dict(env)
+                env2[Sym(f'each:{tgt}')] = x
+                for k, v in accs.items():
+                    env2[Opaque(f'loopvar:{k}')] = v
+                taken = None
+                for pg, flow, binds, effs in lp.paths:
+                    if all(bool(_fold_value(g, env2, loops)) == pol for g, pol in pg):
+                        taken = (flow, binds)
+                        break
+                if taken is None:
+                    raise _NoValue('no loop path applies')
+                for k, v in taken[1]:
+                    if k in accs:
+                        accs[k] = _fold_value(v, env2, loops)
+                if taken[0] == 'break':
+                    break
+            return accs[var]
+    raise _NoValue(repr(t)[:80])
+
+
+def R8(ctx: Ctx) -> RuleResult:
+    r = RuleResult('R8', 'constant folding of len / sum / prod over a range with literal bounds: in every range of a finite model (integer bounds -3..3, every combination of excluded ends; reversed and degenerate ranges included) the folded constant is the number / sum / product of the integers the range contains (or the call is left as it is)')
+    from .terms import Evaluator, Loop
+    mod = ctx.model.module('hpl.rewrite', 'R8')
+    fi = ctx.model.func('hpl.rewrite', '_simplify_function_call', 'R8')
+    base = rewrite_eval(ctx)
+    call = Sym(fi.params()[0], 'HplFunctionCall')
+    grid = [(lo, hi, emin, emax) for lo in range(-3, 4) for hi in range(-3, 4) for emin in (False, True) for emax in (False, True)]
+    decided = 0
+    for fname in ('len', 'sum', 'prod', 'max', 'min'):
+        ev = Evaluator(ctx.model, inline=base.inline, assume={Attr(Attr(call, 'function'), 'name'): Const(fname)})
+        outs = []
+        for o in expand_outcomes(ev.run(fi, {fi.params()[0]: call})):
+            if o.kind == 'return' and isinstance(o.value, Call) and isinstance(o.value.func, FuncRef) and o.value.args == (call,) and not o.value.kwargs:
+                # delegated to a per-function folder: its own paths (each with its own loops)
+                g = ev.callee(o.value.func)
+                if g is not None and g is not fi:
+                    outs.extend(expand_outcomes(ev.run(g, {g.params()[0]: call})))
+                    continue
+            outs.append(o)
+        # the outcomes for a range argument: isinstance(<arg>, HplRange) holds on the path
+        cases = []
+        for o in outs:
+            if o.kind != 'return':
+                continue
+            on_range = any(pol_ and isinstance(g, Call) and isinstance(g.func, Ext) and g.func.name == 'isinstance' and len(g.args) == 2 and 'HplRange' in repr(g.args[1])
+                           for g, pol_ in __import__('hplsa.terms', fromlist=['flat_guards']).flat_guards(o.guards))
+            if on_range:
+                cases.append(o)
+        folded = [o for o in cases if isinstance(o.value, New) and o.value.cls == 'HplLiteral']
+        if not folded:
+            r.notes.append(f'{fname}: no constant folding over ranges found (nothing to check)')
+            continue
+        bad: Dict[str, Tuple] = {}
+        unread: List[str] = []
+        n_pts = 0
+        for lo, hi, emin, emax in grid:
+            env = {'min': lo, 'max': hi, 'emin': emin, 'emax': emax}
+            ints = [i for i in range(-8, 9) if (lo < i or (lo == i and not emin)) and (i < hi or (i == hi and not emax))]
+            if fname in ('max', 'min'):
+                want = (max(ints) if fname == 'max' else min(ints)) if ints else 'nothing (the range is empty: the call must stay)'
+            else:
+                want = len(ints) if fname == 'len' else sum(ints) if fname == 'sum' else __import__('math').prod(ints)
+            for o in folded:
+                loops = [e for e in o.effects if isinstance(e, Loop)]
+                try:
+                    applies = True
+                    for g, pol_ in o.guards:
+                        if not any(_range_parts(x) in ('min', 'max', 'emin', 'emax') for x in walk(g)):
+                            continue    # kind tests (is it a range, are the bounds literals): the case under study
+                        if bool(_fold_value(g, env, loops)) != pol_:
+                            applies = False
+                            break
+                    if not applies:
+                        continue
+                    got = _fold_value(o.value.get('value'), env, loops)
+                except _NoValue as e:
+                    unread.append(f'{fname}: {e}')
+                    continue
+                except KeyError as e:
+                    unread.append(f'{fname}: {e}')
+                    continue
+                n_pts += 1
+                if got != want:
+                    txt = f'{"!" if emin else ""}[{lo} to {hi}]{"!" if emax else ""}'
+                    kind = 'negative' if fname == 'len' and isinstance(got, int) and got < 0 else 'reversed' if lo > hi else 'empty' if not ints else 'value'
+                    bad.setdefault(kind, (txt, got, want, o.lineno))
+        r.counts[f'{fname}: points'] = n_pts
+        if unread and not n_pts:
+            r.notes.append(f'{fname}: folded value not readable ({unread[0]})')
+            continue
+        decided += fname in ('len', 'sum', 'prod')
+        if not bad:
+            r.ok(f'{fname}(range): {n_pts} ranges of the model fold to the right constant')
+        for kind, (txt, got, want, line) in sorted(bad.items()):
+            r.fail(f'{fname}(range):{kind}', f'{fname}({txt}) folds to {got}; the range contains {"no integer" if want in (0, 1) and kind != "value" else "integers"} and the value is {want}'
+                   + (' (a length cannot be negative)' if kind == 'negative' else ''), f'{fi.module.relpath}:{line}', want, got)
+    r.floor('range folds decided', decided, 3)
+    return r
+
+
+# ------------------------------------------------------------------------ R9
+_DEDUPE = ('set', 'frozenset', 'dict.fromkeys', 'fromkeys')
+
+
+def _dedupes(t: Term) -> bool:
+    """the term is a collection without repeated elements by construction: set(...), a set comprehension, or
+    tuple / list / sorted of one"""
+    from .terms import Comp, TupleT
+    if isinstance(t, Comp) and t.kind == 'set':
+        return True
+    if isinstance(t, TupleT) and t.kind == 'set':
+        return True
+    if isinstance(t, Call) and isinstance(t.func, Ext):
+        n = t.func.name
+        if n in _DEDUPE or n.split('.')[-1] in ('fromkeys',):
+            return True
+        if n in ('tuple', 'list', 'sorted') and t.args:
+            return _dedupes(t.args[0])
+    return False
+
+
+def _nodup_guard(gs, about: List[Term]) -> bool:
+    """the path has established len(set(V)) == len(W) for the collection under construction"""
+    from .terms import flat_guards
+    def is_len(x: Term) -> Optional[Term]:
+        return x.args[0] if isinstance(x, Call) and isinstance(x.func, Ext) and x.func.name == 'len' and len(x.args) == 1 else None
+    for t, pol in flat_guards(tuple(gs)):
+        if not (isinstance(t, Op) and len(t.args) == 2 and t.op in ('==', '!=', '<', '>', '>=', '<=')):
+            continue
+        a, b = is_len(t.args[0]), is_len(t.args[1])
+        if a is None or b is None:
+            continue
+        if _dedupes(b) and not _dedupes(a):
+            a, b = b, a
+            op = {'<': '>', '>': '<', '<=': '>=', '>=': '<='}.get(t.op, t.op)
+        else:
+            op = t.op
+        if not (_dedupes(a) and not _dedupes(b)):
+            continue
+        inner = a.args[0] if isinstance(a, Call) and a.args else None
+        if inner is not None and about and not any(inner == x for x in about):
+            continue
+        # len(set(V)) <= len(W) always: equality is `==` true, `!=` false, `<` false, `>=` true
+        if (op == '==' and pol) or (op == '!=' and not pol) or (op == '<' and not pol) or (op == '>=' and pol):
+            return True
+    return False
+
+
+def R9(ctx: Ctx) -> RuleResult:
+    r = RuleResult('R9', 'a set literal that comes out of _simplify has pairwise distinct elements (len / sum / prod over set literals count / add / multiply them once each): every set it rebuilds is built from a set of the simplified elements, or after the test that they contain no duplicates - unless the folds remove duplicates themselves')
+    from .terms import Comp, Evaluator, Loop, flat_guards
+    fi = ctx.model.func('hpl.rewrite', '_simplify', 'R9')
+    ev = Evaluator(ctx.model, inline=lambda f, d: False)
+    expr = Sym(fi.params()[0], 'HplSet')
+
+    def on_set(o: Outcome) -> bool:
+        return any(pol and isinstance(g, Call) and isinstance(g.func, Ext) and g.func.name == 'isinstance' and len(g.args) == 2 and g.args[0] == expr and 'HplSet' in repr(g.args[1])
+                   for g, pol in flat_guards(o.guards))
+    outs = [(fi, o) for o in expand_outcomes(ev.run(fi, {fi.params()[0]: expr})) if o.kind == 'return' and on_set(o)]
+    followed = []
+    for f0, o in outs:
+        if isinstance(o.value, Call) and isinstance(o.value.func, FuncRef) and o.value.args == (expr,):
+            g = ev.callee(o.value.func)     # the set case lives in a helper of its own
+            if g is not None and g is not fi:
+                followed.extend((g, o2) for o2 in expand_outcomes(ev.run(g, {g.params()[0]: expr})) if o2.kind == 'return')
+                continue
+        followed.append((f0, o))
+    if not followed:
+        raise AnalysisError('R9', '_simplify: no path for set literals found')
+    weak: List[Tuple[FunctionInfo, Outcome, str]] = []
+    n = 0
+    for f0, o in followed:
+        n += 1
+        v = o.value
+        simplified = [x for t in [v] + [g for g, _ in o.guards] for x in walk(t) if isinstance(x, Comp) and any(isinstance(y, Call) and isinstance(y.func, FuncRef) and y.func.key == fi.key for y in walk(x.elt))]
+        built = None
+        if isinstance(v, New) and v.cls == 'HplSet':
+            built = v.get('values')
+        elif isinstance(v, Call) and isinstance(v.func, (Attr,)) and v.func.name == 'but' and v.kw('values') is not None:
+            built = v.kw('values')
+        elif isinstance(v, Call) and getattr(v.func, 'name', '') == 'but' and v.kw('values') is not None:
+            built = v.kw('values')
+        if built is not None:
+            if _dedupes(built):
+                r.ok(f'{f0.name}: rebuilt from {str(built)[:60]}')
+            elif _nodup_guard(o.guards, [built] + simplified):
+                r.ok(f'{f0.name}: rebuilt from the simplified elements after the no-duplicates test')
+            else:
+                weak.append((f0, o, f'rebuilds the set from {str(built)[:70]} without removing or excluding duplicates'))
+        elif v == expr:
+            if _nodup_guard(o.guards, simplified):
+                r.ok(f'{f0.name}: returns the input set after the no-duplicates test')
+            else:
+                weak.append((f0, o, 'returns the input set without having excluded duplicates among its simplified elements'))
+        else:
+            r.notes.append(f'{f0.name}: result {str(v)[:80]} not interpreted')
+            n -= 1
+    if weak:
+        # do the folds over set literals count on distinct elements?
+        rely = []
+        fc = ctx.model.func('hpl.rewrite', '_simplify_function_call', 'R9')
+        call = Sym(fc.params()[0], 'HplFunctionCall')
+        base = rewrite_eval(ctx)
+        for fname in ('len', 'sum', 'prod'):
+            ev2 = Evaluator(ctx.model, inline=base.inline, assume={Attr(Attr(call, 'function'), 'name'): Const(fname)})
+            outs2 = []
+            for o in expand_outcomes(ev2.run(fc, {fc.params()[0]: call})):
+                if o.kind == 'return' and isinstance(o.value, Call) and isinstance(o.value.func, FuncRef) and o.value.args == (call,):
+                    g = ev2.callee(o.value.func)
+                    if g is not None and g is not fc:
+                        outs2.extend(expand_outcomes(ev2.run(g, {g.params()[0]: call})))
+                        continue
+                outs2.append(o)
+            for o in outs2:
+                terms = [o.value] + list(o.effects) + [g for g, _ in o.guards] if o.value is not None else []
+                for t in terms:
+                    parents: Dict[int, Term] = {}
+                    for x in walk(t):
+                        if isinstance(x, Call) and isinstance(x.func, Ext) and x.func.name in _DEDUPE:
+                            for y in walk(x):
+                                parents[id(y)] = x
+                    for x in walk(t):
+                        if isinstance(x, Attr) and x.name == 'values' and id(x) not in parents and 'HplSet' in repr(o.guards):
+                            rely.append(fname)
+        if rely:
+            for f0, o, why in weak:
+                r.fail(f'{f0.name}[HplSet]:duplicates', f'{f0.name} {why}: a set such as {{2, 1 + 1}} keeps two equal elements after simplification, and the {"/".join(sorted(set(rely)))} folds over set literals count each element of .values (len -> 2, sum -> 4)', f'{f0.module.relpath}:{o.lineno}')
+        else:
+            r.ok('the folds over set literals remove duplicates themselves')
+    r.floor('set paths of _simplify', n, 2)
+    return r
+
+
+# ----------------------------------------------------------------------- R10
+_LIT_KIND = {'number': 'NUMBER', 'boolean': 'BOOL', 'string': 'STRING'}
+
+
+def _fold_outcomes(ctx: Ctx, fname: str) -> Tuple[FunctionInfo, Term, List[Tuple[FunctionInfo, Outcome]]]:
+    """return paths of the constant folding of one built-in function (the dispatcher specialised to its name; a
+    delegation to a per-function folder is followed)"""
+    from .terms import Evaluator
+    fc = ctx.model.func('hpl.rewrite', '_simplify_function_call', 'R10')
+    call = Sym(fc.params()[0], 'HplFunctionCall')
+    ev2 = Evaluator(ctx.model, inline=rewrite_eval(ctx).inline, assume={Attr(Attr(call, 'function'), 'name'): Const(fname)})
+    outs: List[Tuple[FunctionInfo, Outcome]] = []
+    for o in expand_outcomes(ev2.run(fc, {fc.params()[0]: call})):
+        if o.kind == 'return' and isinstance(o.value, Call) and isinstance(o.value.func, FuncRef) and o.value.args == (call,):
+            g = ev2.callee(o.value.func)
+            if g is not None and g is not fc:
+                outs.extend((g, o2) for o2 in expand_outcomes(ev2.run(g, {g.params()[0]: call})))
+                continue
+        outs.append((fc, o))
+    return fc, call, outs
+
+
+def R10(ctx: Ctx) -> RuleResult:
+    r = RuleResult('R10', 'result kind of function folding: each built-in function folds to a literal of its declared result type (HplLiteral.number / boolean / string), to the call itself, or to a rebuilt expression; an argument is handed back as the result only where its type is known to be within the result type')
+    from .rules_tables import function_rows
+    from .terms import BoundMethod, ClassRef, flat_guards
+    n = 0
+    simp = ctx.model.func('hpl.rewrite', '_simplify', 'R10')
+    for m, row in function_rows(ctx).items():
+        fname = row['name']
+        rts = set()
+        pts = set()
+        for params, res, var in row['overloads']:
+            rts |= set(res or ())
+            for pt in params:
+                pts |= set(pt or ())
+            pts |= set(var or ())
+        try:
+            fc, call, outs = _fold_outcomes(ctx, fname)
+        except AnalysisError as e:
+            r.notes.append(f'{fname}: not evaluable ({e})')
+            continue
+        for f0, o in outs:
+            if o.kind != 'return':
+                continue
+            v = o.value
+            where = f'{f0.module.relpath}:{o.lineno}'
+            if v == call:
+                continue
+            if isinstance(v, New) and v.cls == 'HplLiteral':
+                n += 1
+                kinds = [t.func.name for t in o.trace if isinstance(t, Call) and isinstance(t.func, BoundMethod) and isinstance(t.func.recv, ClassRef) and t.func.recv.name == 'HplLiteral' and t.func.name in _LIT_KIND]
+                if not kinds:
+                    if f'{fname}: literal built without the number/boolean/string factories' not in r.notes:
+                        r.notes.append(f'{fname}: literal built without the number/boolean/string factories')
+                    continue
+                kind = _LIT_KIND[kinds[-1]]
+                if kind in rts:
+                    r.ok(f'{fname}: folds to a {kind} literal')
+                else:
+                    r.fail(f'{fname}:literal-kind', f'{fname}() folds to a {kind} literal but its declared result type is {sorted(rts)}: the simplified expression changes type', where, sorted(rts), kind)
+                continue
+            # an argument (simplified or not) handed back as it is
+            is_arg = (isinstance(v, Call) and isinstance(v.func, FuncRef) and v.func.key == simp.key and len(v.args) == 1 and any(x == Attr(call, 'arguments') for x in walk(v.args[0]))) \
+                or (not isinstance(v, Call) and any(x == Attr(call, 'arguments') for x in walk(v)) and not isinstance(v, New))
+            if is_arg:
+                n += 1
+                if pts and pts <= rts:
+                    r.ok(f'{fname}: hands back an argument (every parameter type is within the result type)')
+                    continue
+                evidence = set()
+                for g, pol in flat_guards(o.guards):
+                    if pol and isinstance(g, Attr) and g.base == v and g.name.startswith('can_be_'):
+                        evidence.add(g.name[7:].upper())
+                if evidence and evidence <= rts:
+                    r.ok(f'{fname}: hands back an argument known to be {sorted(evidence)}')
+                else:
+                    r.fail(f'{fname}:identity', f'{fname}() hands back its argument {str(v)[:50]} unchanged where nothing establishes that it is of the result type {sorted(rts)} (parameters admit {sorted(pts)}; a Python isinstance test on the value does not: bool is an int): the result changes type', where, sorted(rts), sorted(pts))
+    r.floor('folding paths', n, 25)
+    return r
+
+
+# ----------------------------------------------------------------------- R11
+class _PairFacts:
+    """what one path of a two-argument shortcut predicate has established about its arguments"""
+
+    def __init__(self, ctx: Ctx, guards, asserts):
+        from .terms import flat_guards
+        self.ctx = ctx
+        self.cls: Dict[Term, str] = {}
+        self.allowed: Dict[Term, Set[str]] = {}
+        self.excluded: Dict[Term, Set[str]] = {}
+        self.equal: List[Tuple[Term, Term]] = []
+        self.negatives: List[Tuple[Term, Term]] = []
+        self.value_tests: List[Tuple[Term, bool]] = []
+        self.unread: List[str] = []
+        sets = kind_token_sets(ctx)
+        for g, pol in list(flat_guards(tuple(guards))) + [(a, True) for a in asserts]:
+            while isinstance(g, Op) and g.op == 'not' and len(g.args) == 1:
+                g, pol = g.args[0], not pol
+            if isinstance(g, Op) and g.op == 'and' and pol:
+                for x in g.args:
+                    self._one(x, True, sets)
+                continue
+            self._one(g, pol, sets)
+
+    def _tokens(self, g: Term, sets) -> Optional[Tuple[Term, frozenset]]:
+        if isinstance(g, Attr) and isinstance(g.base, Attr) and g.base.name == 'operator' and g.name in sets:
+            return canon(g.base.base), sets[g.name]
+        if isinstance(g, Op) and g.op == 'or':
+            parts = [self._tokens(x, sets) for x in g.args]
+            if all(p_ is not None for p_ in parts) and len({p_[0] for p_ in parts}) == 1:
+                return parts[0][0], frozenset().union(*[p_[1] for p_ in parts])
+        return None
+
+    def _one(self, g: Term, pol: bool, sets):
+        while isinstance(g, Op) and g.op == 'not' and len(g.args) == 1:
+            g, pol = g.args[0], not pol
+        if isinstance(g, Call) and isinstance(g.func, Ext) and g.func.name == 'isinstance' and len(g.args) == 2:
+            if pol:
+                self.cls[canon(g.args[0])] = getattr(g.args[1], 'name', '?')
+            return
+        tk = self._tokens(g, sets)
+        if tk is not None:
+            x, ts = tk
+            if pol:
+                self.allowed[x] = (self.allowed[x] & ts) if x in self.allowed else set(ts)
+            else:
+                self.excluded.setdefault(x, set()).update(ts)
+            return
+        k = _fkey(g)
+        if k == 'hpl.rewrite:_obvious_negatives' and len(g.args) == 2:
+            if pol:
+                self.negatives.append((canon(g.args[0]), canon(g.args[1])))
+            return
+        if isinstance(g, Op) and g.op == '==' and len(g.args) == 2 and not any(isinstance(a, Const) for a in g.args):
+            if pol:
+                self.equal.append((canon(g.args[0]), canon(g.args[1])))
+            return
+        if isinstance(g, Op) and g.op in ('==', '!=', '<', '<=', '>', '>=') and len(g.args) == 2 and isinstance(g.args[1], Const) and isinstance(g.args[0], Attr) and g.args[0].name == 'value':
+            self.value_tests.append((g, pol))
+            return
+        if isinstance(g, Op) and g.op == 'and' and not pol:
+            return      # "not (this shape)": says nothing about values
+        if isinstance(g, Const):
+            return
+        self.unread.append(str(g)[:70])
+
+    def token_choices(self) -> List[Dict[Term, str]]:
+        subs = sorted(set(self.allowed) | {x for x in self.cls if self.cls[x] in ('HplBinaryOperator', 'HplUnaryOperator')}, key=repr)
+        all_bin = set(BIN) - {'in'}
+        opts = []
+        for x in subs:
+            base = set(self.allowed[x]) if x in self.allowed else (set(UN) if self.cls.get(x) == 'HplUnaryOperator' else all_bin)
+            if self.cls.get(x) == 'HplUnaryOperator':
+                base &= set(UN)
+            elif self.cls.get(x) == 'HplBinaryOperator':
+                base &= all_bin
+            base -= self.excluded.get(x, set())
+            opts.append(sorted(base))
+        return [dict(zip(subs, c)) for c in itertools.product(*opts)] if all(opts) else []
+
+
+def _pair_den(t: Term, toks: Dict[Term, str], facts: '_PairFacts', m: Dict[Term, Any]):
+    t = canon(t)
+    if isinstance(t, Attr) and t.name == 'value':
+        return _pair_den(t.base, toks, facts, m)
+    if t in toks:
+        tok = toks[t]
+        if facts.cls.get(t) == 'HplUnaryOperator' or (tok in UN and tok not in BIN) or (tok == '-' and facts.cls.get(t) != 'HplBinaryOperator' and t not in facts.allowed):
+            v = _pair_den(Attr(t, 'operand1'), toks, facts, m)
+            if (tok == 'not') != isinstance(v, bool):
+                raise Undefined()
+            return UN[tok](v)
+        a, b = _pair_den(Attr(t, 'operand1'), toks, facts, m), _pair_den(Attr(t, 'operand2'), toks, facts, m)
+        if tok in BOOL_TOKENS:
+            if not (isinstance(a, bool) and isinstance(b, bool)):
+                raise Undefined()
+        elif isinstance(a, bool) or isinstance(b, bool):
+            if tok not in ('=', '!='):
+                raise Undefined()
+        return BIN[tok](a, b)
+    return m[t]
+
+
+def _pair_leaves(t: Term, toks: Dict[Term, str], facts: '_PairFacts', out: List[Term]):
+    t = canon(t)
+    if isinstance(t, Attr) and t.name == 'value':
+        return _pair_leaves(t.base, toks, facts, out)
+    if t in toks:
+        _pair_leaves(Attr(t, 'operand1'), toks, facts, out)
+        if not (facts.cls.get(t) == 'HplUnaryOperator' or toks[t] == 'not'):
+            _pair_leaves(Attr(t, 'operand2'), toks, facts, out)
+        return
+    if t not in out:
+        out.append(t)
+
+
+def R11(ctx: Ctx) -> RuleResult:
+    r = RuleResult('R11', 'contracts of the shortcut predicates the simplifier trusts: whenever _obviously_different(a, b) answers True the two expressions denote different values, and whenever _obvious_negatives(a, b) answers True one denotes the negation of the other, in every assignment of the finite model (numbers -2..2 and 1/2, truth values) that has the shape the path tested')
+    ev = rewrite_eval(ctx)
+    n_paths = 0
+    for name, claim in (('_obviously_different', 'different'), ('_obvious_negatives', 'negatives')):
+        fi = ctx.model.func('hpl.rewrite', name, 'R11')
+        ps = fi.params()
+        a, b = Sym(ps[0], 'HplExpression'), Sym(ps[1], 'HplExpression')
+        for o in expand_outcomes(ev.run(fi, {ps[0]: a, ps[1]: b})):
+            if o.kind != 'return' or o.value == Const(False):
+                continue
+            guards = tuple(o.guards) + (() if o.value == Const(True) else ((o.value, True),))
+            facts = _PairFacts(ctx, guards, o.asserts)
+            gtxt = guards_repr(norm_guards(guards))
+            if facts.unread:
+                r.notes.append(f'{name}: [{gtxt[-80:]}] not readable: {facts.unread[0]}')
+                continue
+            choices = facts.token_choices()
+            if not choices:
+                continue   # contradictory operator tests: the path cannot be taken
+            n_paths += 1
+            for toks in choices:
+                leaves: List[Term] = []
+                for x in [a, b] + [y for pr in facts.equal + facts.negatives for y in pr] + [g.args[0] for g, _ in facts.value_tests]:
+                    _pair_leaves(x, toks, facts, leaves)
+                if len(leaves) > 5:
+                    r.notes.append(f'{name}: too many free operands on a path')
+                    continue
+                counter = None
+                checked = 0
+                for universe in (NUMS, BOOLS):
+                    for choice in itertools.product(universe, repeat=len(leaves)):
+                        m = dict(zip(leaves, choice))
+                        try:
+                            if any(_pair_den(x, toks, facts, m) != _pair_den(y, toks, facts, m) for x, y in facts.equal):
+                                continue
+                            okn = True
+                            for x, y in facts.negatives:
+                                vx, vy = _pair_den(x, toks, facts, m), _pair_den(y, toks, facts, m)
+                                if isinstance(vx, bool) != isinstance(vy, bool) or (vx != (not vy) if isinstance(vx, bool) else vx != -vy):
+                                    okn = False
+                            if not okn:
+                                continue
+                            if any(bool(BIN[PY_BIN[g.op]](_pair_den(g.args[0], toks, facts, m), Fraction(g.args[1].value) if not isinstance(g.args[1].value, bool) else g.args[1].value)) != pol for g, pol in facts.value_tests):
+                                continue
+                            va, vb = _pair_den(a, toks, facts, m), _pair_den(b, toks, facts, m)
+                        except (Undefined, TypeError, KeyError):
+                            continue
+                        if isinstance(va, bool) != isinstance(vb, bool):
+                            continue
+                        checked += 1
+                        if claim == 'different':
+                            bad = va == vb
+                        else:
+                            bad = (va != (not vb)) if isinstance(va, bool) else (va != -vb)
+                        if bad and counter is None:
+                            counter = (m, va, vb)
+                shape = ','.join(f'{str(k)[1:]}:{v}' for k, v in sorted(toks.items(), key=lambda kv: repr(kv[0]))) or ('negatives' if facts.negatives else 'any')
+                if facts.negatives and not toks:
+                    shape = 'negatives'
+                key = f'{name}[{shape}]'
+                if counter is not None:
+                    m, va, vb = counter
+                    ms = ', '.join(f'{str(k)[1:] if str(k).startswith("$") else k}={v}' for k, v in m.items())
+                    what = 'denote the same value' if claim == 'different' else 'are not negations of each other'
+                    r.fail(key, f'{name} answers True on this shape, but with {ms} the two expressions {what} ({va} and {vb}): every rewrite that trusts the answer (x = y -> False, x != y -> True, ...) changes the value there', f'{fi.module.relpath}:{o.lineno}')
+                elif checked:
+                    r.ok(f'{key}: {checked} assignments')
+    r.floor('True paths of the shortcut predicates', n_paths, 4)
+    return r
+
+
+# ----------------------------------------------------------------------- R12
+def R12(ctx: Ctx) -> RuleResult:
+    r = RuleResult('R12', 'normal-form assumptions of the simplifier: an assertion that the first operand of an (already simplified) binary operator is not a literal is made only where the operator is known to be commutative - _pre_simplify_binop moves a literal to the right only under the commutative flag, so `1 - x`, `2 / x`, `2 ** x`, `1 < x` keep it')
+    import ast as _ast
+    mod = ctx.model.module('hpl.rewrite', 'R12')
+    ev = rewrite_eval(ctx)
+    commutative = {row['token'] for row in binary_rows(ctx).values() if row.get('commutative')}
+    all_bin = {row['token'] for row in binary_rows(ctx).values()}
+    n_funcs = 0
+    n_asserts = 0
+    for fi in mod.functions.values():
+        if not any(isinstance(x, _ast.Assert) and 'HplLiteral' in _ast.unparse(x.test) for x in _ast.walk(fi.node)):
+            continue
+        n_funcs += 1
+        args = {}
+        for a_ in fi.node.args.args:
+            c = ctx.ev.ann_class(a_.annotation, fi.module) if a_.annotation is not None else None
+            args[a_.arg] = Sym(a_.arg, c.name if c else None)
+        try:
+            outs = expand_outcomes(ev.run(fi, args))
+        except AnalysisError:
+            r.notes.append(f'{fi.name}: not evaluable')
+            continue
+        seen_keys = set()
+        for o in outs:
+            for at in o.asserts:
+                t = at
+                if not (isinstance(t, Op) and t.op == 'not' and len(t.args) == 1):
+                    continue
+                inner = t.args[0]
+                subj = None
+                if isinstance(inner, Call) and isinstance(inner.func, Ext) and inner.func.name == 'isinstance' and len(inner.args) == 2 and 'HplLiteral' in repr(inner.args[1]):
+                    subj = canon(inner.args[0])
+                elif isinstance(inner, Attr) and inner.name == 'is_literal':
+                    subj = canon(inner.base)
+                if not (isinstance(subj, Attr) and subj.name == 'operand1'):
+                    continue
+                n_asserts += 1
+                x = subj.base
+                facts = _PairFacts(ctx, o.guards, [a2 for a2 in o.asserts if a2 is not at])
+                allowed = set(facts.allowed.get(x, all_bin)) & all_bin
+                allowed -= facts.excluded.get(x, set())
+                risky = sorted(allowed - commutative)
+                key = f'{fi.name}:first-operand-not-literal'
+                if risky and key not in seen_keys:
+                    seen_keys.add(key)
+                    r.fail(key, f'{fi.name} asserts that {str(x)[:40]}.operand1 is not a literal on a path where its operator can be {risky[:6]}: literals are moved to the right of commutative operators only, so e.g. `(1 - x) = 1` fails with AssertionError', f'{fi.module.relpath}:{o.lineno}')
+                elif not risky:
+                    r.ok(f'{fi.name}: first operand of a commutative operator ({sorted(allowed)})')
+    r.counts['functions with literal assertions'] = n_funcs
+    r.counts['first-operand assertions'] = n_asserts
+    return r
+
+
+RULES = {'R7': R7, 'R8': R8, 'R9': R9, 'R10': R10, 'R11': R11, 'R12': R12}
